@@ -69,7 +69,8 @@ def gen(ctx, want):
                                      seed=r.randint(0, 10 ** 9), plays=r.choice([52, 52, 52, 17, 5]),
                                      inject=(r.choice([0.0, 0.15, 0.4]) if 'inject' in want else 0.0),
                                      policy=r.choice(['follow', 'any', 'mixed']), observers=('observers' in want),
-                                     random_play=('random_play' in want)))
+                                     random_play=('random_play' in want),
+                                     late=('observers' in want and i % 4 == 3)))     # dummy's hand shown to the observers only after they refused dummy's first play
     if 'avail' in want:
         for i in range(3000 if th else 400):
             n = r.randint(1, 13)
@@ -121,7 +122,7 @@ def lit_obs(k, o):
         opl = '[' + ';'.join(f'({c}, {p})' for c, p in ops) + ']'
         st = '[' + ';'.join(f'({lib.cbool(a)}, {lib.cbool(u)}, {pj(p)})' for a, u, p in steps) + ']'
         per.append(f"({opl}, {st}, ({nl(fh)}, {lib.copt(fd, nl)}, {hl(fhist)}))")
-    return f"({k['bid']}, {k['decl']}, [{';'.join(nl(h) for h in k['deal'])}], [{';'.join(per)}])"
+    return f"({k['bid']}, {k['decl'] + (4 if k.get('late') else 0)}, [{';'.join(nl(h) for h in k['deal'])}], [{';'.join(per)}])"
 
 
 def lit_avail(hand, led, res):
